@@ -607,7 +607,8 @@ func EVAL(ctx context.Context, ast MalType, env EnvType) (res MalType, e error) 
 			} else {
 				fn, ok := f.(Func)
 				if !ok {
-					return nil, lisperror.NewLispError(fmt.Errorf("attempt to call non-function (was of type %T)", f), el)
+					// positioned at the call form (the evaluated list el carries no cursor)
+					return nil, lisperror.NewLispError(fmt.Errorf("attempt to call non-function (was of type %T)", f), ast)
 				}
 				result, err := fn.Fn(ctx, el.(List).Val[1:])
 				if err != nil {
